@@ -1006,6 +1006,25 @@ def gen_cli_options(root, report):
 
     def l3(items):
         return '[' + ',\n   '.join('(' + ', '.join(lean_str(x) for x in it) + ')' for it in items) + ']'
+    # where each tool looks for `Rules`: the first argument of every `os.path.join(<root>, 'Rules', ...)`; a root that is a local name
+    # assigned exactly once in the same function stands for the expression it was given
+    roots = []
+    for script in ('trainer.py', 'pcfg_guesser.py', 'edit_rules.py', 'prince_ling.py', 'password_scorer.py'):
+        stree = ast.parse(open(os.path.join(root, script), encoding='utf-8').read())
+        for fn_ in [n for n in ast.walk(stree) if isinstance(n, ast.FunctionDef)]:
+            assigned = {}
+            for n in ast.walk(fn_):
+                if isinstance(n, ast.Assign) and len(n.targets) == 1 and isinstance(n.targets[0], ast.Name):
+                    assigned.setdefault(n.targets[0].id, []).append(n.value)
+            for n in ast.walk(fn_):
+                if isinstance(n, ast.Call) and ast.unparse(n.func) == 'os.path.join' and len(n.args) >= 2 \
+                        and isinstance(n.args[1], ast.Constant) and n.args[1].value == 'Rules':
+                    r_ = n.args[0]
+                    if isinstance(r_, ast.Name) and len(assigned.get(r_.id, [])) == 1:
+                        r_ = assigned[r_.id][0]
+                    roots.append((script, ast.unparse(r_).replace(' ', '')))
+    report['rules_dir_roots'] = roots
+    roots_lit = '[' + ', '.join('(' + lean_str(a) + ', ' + lean_str(b) + ')' for a, b in roots) + ']'
     return f'''/-! GENERATED by harness/translate.py (tables.py) from trainer.py, pcfg_guesser.py, edit_rules.py, prince_ling.py and password_scorer.py -- do not edit.
 `*Assign`: every assignment to `program_info[...]` (function, key, right-hand side; `<dynamic>` = computed key or a dict method).
 `*Options`: every `add_argument` (long flag, default, type, action, const, dest). -/
@@ -1043,6 +1062,9 @@ def scorerAssign : List (String × String × String) :=
 
 def scorerOptions : List (String × String × String × String × String × String) :=
   {l3(so)}
+
+/-- where each tool looks for the `Rules` folder: (program, first argument of its `os.path.join(..., 'Rules', ...)`) -/
+def rulesDirRoots : List (String × String) := {roots_lit}
 
 end Pcfg.Generated.CliOptions
 '''
